@@ -7,6 +7,8 @@ Suites
                draws, in this order, with these arguments — a different request is a `stuck`/`DrawMismatch`, an unused or
                missing draw shows in the counts — and (b) produce the same text, byte for byte (header included).
                Oracle: the same command line with `--seed` from two different initial generator states gives the same text.
+  shufflerun : the same for `cnfshuffle` (formula on stdin): recorded `random.choice` values and shuffled lists replayed by
+               `shuffleRun`, same text byte for byte; seeds are TOKENS here (`type=str`), the empty token included.
   phasetrace : the generator events of a real run of cnfgen / pbgen / cnfshuffle (parse window, random.seed calls with their
                argument, blocks of draws) against the trace the phase table regenerated from the source predicts.
   seededgraph: the six graph generators of cnfgen/graphs.py with a `seed` parameter against their model
@@ -59,6 +61,8 @@ class Recording:
         self.events = []       # ("seed", a) | ("draw", phase, graph-encoding or None, formula-encoding or None)
         self.in_parse = 0
         self.unknown = []
+        self.shuffle_draws = []     # every choice / shuffle in the vocabulary of the Shuffle model (None = no encoding)
+        self.allow_shuffle = False
 
     # -- installation
     def __enter__(self):
@@ -116,17 +120,19 @@ class Recording:
         return self.saved["seed"](a, *rest, **kw)
 
     def r_sample(self, population, k, **kw):
+        # positions of the chosen elements: random.sample picks POSITIONS, so the same state gives the same positions
+        # on range(len(population)) (checked); elements need not be hashable (lists of (X, b) parities)
+        st = _mod_random.getstate()
         res = self.saved["sample"](population, k, **kw)      # raises like the real thing
         n = len(population)
-        # positions of the chosen elements (populations of the code under test have no repeats)
-        pos = {}
-        for i, x in enumerate(population):
-            pos.setdefault(x if not isinstance(x, list) else tuple(x), i)
-        idx = [pos[x if not isinstance(x, list) else tuple(x)] for x in res]
+        _mod_random.setstate(st)
+        idx = self.saved["sample"](range(n), k)
+        if [population[i] for i in idx] != list(res):
+            raise RuntimeError("harness: random.sample is not positional")
         first = population[0] if n else None
         if isinstance(population, range) or isinstance(first, int):
             genc = [0] + enc_list(res)
-        elif all(isinstance(x, tuple) and len(x) == 2 for x in res):
+        elif all(isinstance(x, tuple) and len(x) == 2 and all(isinstance(y, int) for y in x) for x in res):
             genc = [1] + enc_pairs(res)        # lists of edges (an empty list of edges included)
         else:
             genc = None
@@ -137,6 +143,7 @@ class Recording:
         v = self.saved["choice"](seq)
         i = next(j for j, x in enumerate(seq) if x is v or x == v)
         self._add(None, [1, len(seq), i])
+        self.shuffle_draws.append([0, v] if isinstance(v, int) else None)
         return v
 
     def r_randint(self, a, b):
@@ -151,8 +158,13 @@ class Recording:
         return x
 
     def r_shuffle(self, x):
-        self.unknown.append("shuffle")
-        return self.saved["shuffle"](x)
+        r = self.saved["shuffle"](x)
+        # vocabulary of Trans/Shuffle.lean: the content of the list afterwards
+        self.shuffle_draws.append([1] + enc_list(x) if all(isinstance(v, int) for v in x) else None)
+        self.events.append(("shuffle", len(self.shuffle_draws) - 1))
+        if not self.allow_shuffle:
+            self.unknown.append("shuffle")
+        return r
 
 
 def split_streams(events):
@@ -163,6 +175,8 @@ def split_streams(events):
     for e in events:
         if e[0] == "seed":
             seeds.append(e[1])
+            continue
+        if e[0] == "shuffle":
             continue
         _, phase, genc, fenc = e
         enc = genc if phase == "g" else fenc
@@ -324,6 +338,130 @@ def seed_of(argv):
     return s
 
 
+# ------------------------------------------------------------------ whole runs of cnfshuffle
+class ShuffleRunCase(Case):
+    __slots__ = ("_argv", "_text", "_req", "_ans", "_state")
+
+    def __init__(self, argv, text, cls):
+        self._argv, self._text = list(argv), text
+        self._req = None
+        self._ans = None
+        self._state = {}
+        Case.__init__(self, "shufflerun", "", self._impl, self._oracle, cls=cls, info={"argv": list(argv), "text": text})
+        self.stateless = False
+
+    def _run(self, pre_seed):
+        _mod_random.seed(pre_seed)
+        for _ in range(pre_seed % 5):
+            _mod_random.random()
+        buf = io.StringIO()
+        old = sys.stdin
+        stdin = io.StringIO(self._text)
+        stdin.name = "<stdin>"
+        sys.stdin = stdin
+        try:
+            with Recording() as rec:
+                rec.allow_shuffle = True
+                try:
+                    with contextlib.redirect_stdout(buf), contextlib.redirect_stderr(io.StringIO()):
+                        tool_shuffle.cli(list(self._argv), mode="output")
+                    out = ("text", buf.getvalue())
+                except (CLIError, SystemExit):
+                    out = ("E", "cliError")
+                except Exception as e:  # noqa
+                    out = ("E", "crash:" + type(e).__name__)
+        finally:
+            sys.stdin = old
+        return out, rec
+
+    def _prepare(self):
+        if self._req is not None:
+            return
+        out, rec = self._run(4242)
+        # draws before the first random.seed belong to the initial state
+        seeds, r0, rs, k, bad = [], [], [], 0, False
+        for e in rec.events:
+            if e[0] == "seed":
+                seeds.append(e[1])
+                continue
+            d = rec.shuffle_draws[k] if k < len(rec.shuffle_draws) else None
+            k += 1
+            if d is None:
+                bad = True
+                continue
+            (rs if seeds else r0).append(d)
+        self._state.update(out=out, seeds=seeds, bad=bad, unknown=list(rec.unknown), n=len(r0) + len(rs))
+        base = [(a, b) for a, b in cnfgen.CNF().header.items() if a != "description"]
+        hdr = [len(base)]
+        for a, b in base:
+            hdr += enc_str(a) + enc_str(b)
+        self._req = req("shufflerun", enc_argv(self._argv), enc_str(self._text), enc_str("<stdin>"), hdr,
+                        enc_stream(r0), enc_stream(rs))
+        if out[0] == "text":
+            self._ans = ok("T {} ".format(self._state["n"]) + " ".join(str(ord(c)) for c in out[1]))
+        else:
+            self._ans = ok("E " + out[1])
+
+    @property
+    def req(self):
+        self._prepare()
+        return self._req
+
+    @req.setter
+    def req(self, v):
+        pass
+
+    def _impl(self):
+        self._prepare()
+        return self._ans
+
+    def _oracle(self):
+        self._prepare()
+        st = self._state
+        if st["unknown"] or st["bad"]:
+            return {"argv": self._argv, "recording": st["unknown"][:3] or "a draw without encoding"}
+        seed = None
+        for i, a in enumerate(self._argv[:-1]):
+            if a in ("--seed", "-S"):
+                seed = self._argv[i + 1]
+        if seed is None or seed == "":
+            return None        # no seed (an empty token is not an integer seed): nothing is promised
+        for pre in (977, 31):
+            out2, _ = self._run(pre)
+            if out2 != st["out"]:
+                a = st["out"][1].split("\n") if st["out"][0] == "text" else [st["out"][1]]
+                b = out2[1].split("\n") if out2[0] == "text" else [out2[1]]
+                return {"argv": self._argv, "stdin": self._text[:200],
+                        "outputs_differ_between_generator_states": [(x, y) for x, y in zip(a, b) if x != y][:3]}
+        return None
+
+
+def shufflerun_cases(ctx):
+    rng = common.sub_rng(ctx["seed"], "C07_run", "shufflerun")
+    texts = [SHUFFLE_TEXT, "p cnf 0 0\n", "p cnf 3 0\n", "c a comment\np cnf 4 3\n1 2 0\n-1 -2 0\n3 -4\n0\n",
+             "p cnf 2 2\n1 2 0\n", "p cnf 1 1\n2 0\n", "not a formula\n", "p cnf 5 4\n1 -2 3 -4 5 0\n0\n-5 0\n1 1 -1 0\n"]
+    if ctx["tier"] == "thorough":
+        for _ in range(12):
+            n, m = rng.randint(1, 9), rng.randint(0, 12)
+            lines = ["p cnf {} {}".format(n, m)]
+            for _ in range(m):
+                lines.append(" ".join(str(rng.choice([-1, 1]) * rng.randint(1, n)) for _ in range(rng.randint(0, 4))) + " 0")
+            texts.append("\n".join(lines) + "\n")
+    optsets = [[], ["-q"], ["-p"], ["-v"], ["-c"], ["-p", "-v", "-c"], ["--no-polarity-flips", "--quiet"], ["-v", "-c"]]
+    seeds = [None, "0", "5", "-3", str(2 ** 40), "", "007"]
+    out = []
+    for i, t in enumerate(texts):
+        for j, sd in enumerate(seeds):
+            if ctx["tier"] == "quick" and (i + j) % 2 and i > 0:
+                continue
+            o = optsets[(i + 2 * j) % len(optsets)]
+            argv = ["cnfshuffle"] + (["--seed" if j % 2 else "-S", sd] if sd is not None else []) + o
+            if j % 3 == 1:
+                argv = ["cnfshuffle"] + o + (["--seed", sd] if sd is not None else [])
+            out.append(ShuffleRunCase(argv, t, cls="seed" if sd not in (None, "") else ("emptyseed" if sd == "" else "noseed")))
+    return out
+
+
 # ------------------------------------------------------------------ generators of command lines
 def seed_prefixes(rng, tier):
     out = [[], ["--seed", "0"], ["-S", str(rng.randint(1, 10 ** 9))], ["--seed", "-5"], ["-q", "--seed", str(2 ** 31)]]
@@ -341,7 +479,8 @@ def formula_cmds(rng, tier):
         for name in ("randkcnf", "randkxor"):
             out.append([name, str(k), str(n), str(m)])
             out.append([name, "-p", str(k), str(n), str(m)])
-    out += [["randkcnf", "3", "6", "--plant", "9"], ["randkxor", "0", "3", "1"], ["randkcnf", "2", "x", "3"],
+    out += [["randkxor", "-p", "2", "7", "21"], ["randkcnf", "-p", "2", "4", "18"],      # planted, dense path
+            ["randkcnf", "3", "6", "--plant", "9"], ["randkxor", "0", "3", "1"], ["randkcnf", "2", "x", "3"],
             ["randkxor", "2", "4"], ["randkcnf", "03", "+5", "4"]]
     return out
 
@@ -791,6 +930,8 @@ def build(suite, info):
         return seededgraph_case(info["which"], info["params"], info["seed"], info["pre"])
     if suite == "clirun":
         return RunCase(info["argv"], cls="replay")
+    if suite == "shufflerun":
+        return ShuffleRunCase(info["argv"], info["text"], cls="replay")
     if suite == "phasetrace":
         return trace_case(info["tool"], info["cmd"], info["seed"])
     if suite == "seededlib":
@@ -803,4 +944,5 @@ def cases(ctx):
     out += seededgraph_cases(ctx)
     out += phasetrace_cases(ctx)
     out += clirun_cases(ctx)
+    out += shufflerun_cases(ctx)
     return out
